@@ -95,15 +95,43 @@ class GMRF(CallableModel):
             dtype=self.field.dtype,
             device=self.field.device,
         )
+        off_diagonal = -precision.expand(self.field.shape[:-1] + (dim - 1,))
+        weights = self._difference_weights()
+        if weights is not None:
+            off_diagonal = off_diagonal / weights
         precision_matrix[..., range(dim - 1), range(1, dim)] = precision_matrix[
             ..., range(1, dim), range(dim - 1)
-        ] = -precision.expand(self.field.shape[:-1] + (dim - 1,))
+        ] = off_diagonal
 
-        precision_matrix[..., range(1, dim - 1), range(1, dim - 1)] = 2.0 * precision
-        precision_matrix[..., 0, 0] = precision_matrix[
-            ..., (dim - 1), (dim - 1)
-        ] = precision.squeeze(-1)
+        zero = torch.zeros_like(off_diagonal[..., :1])
+        precision_matrix[..., range(dim), range(dim)] = -(
+            torch.cat((off_diagonal, zero), -1) + torch.cat((zero, off_diagonal), -1)
+        )
         return precision_matrix
+
+    def _difference_weights(self):
+        """Weights dividing the squared differences (None for the plain GMRF)."""
+        if self.tree_model is not None:
+            heights = torch.cat(
+                (
+                    torch.zeros(
+                        self.tree_model.node_heights.shape[:-1] + (1,),
+                        dtype=self.field.dtype,
+                        device=self.field.device,
+                    ),
+                    self.tree_model.node_heights[..., self.tree_model.taxa_count :],
+                ),
+                -1,
+            )
+            heights_sorted = torch.sort(heights, descending=False)[0]
+            durations = heights_sorted[..., 1:] - heights_sorted[..., :-1]
+            weights = (durations[..., :-1] + durations[..., 1:]) / 2.0
+            if self.rescale:
+                weights = weights / heights_sorted[..., -1:]
+            return weights
+        elif self.weights is not None:
+            return getattr(self.weights, 'tensor', self.weights)
+        return None
 
     @classmethod
     def from_json(cls, data: dict[str, Any], dic: dict[str, Identifiable]) -> GMRF:
